@@ -551,6 +551,62 @@ func (a *linAn) factsAt(bb *ssa.BasicBlock) []lin {
 			}
 		}
 	}
+	// strings.Split with a separator that is not empty yields at least one element; and when
+	// the text is not empty while the first element is, the separator occurs in the text, so
+	// there are at least two
+	var domFacts []edgeFact
+	gotDom := false
+	for _, x := range a.fn.Blocks {
+		for _, ins := range x.Instrs {
+			call, ok := ins.(*ssa.Call)
+			if !ok || !staticCalleeIs(&call.Call, "strings", "Split") || len(call.Call.Args) != 2 {
+				continue
+			}
+			if sep, isK := strConst(call.Call.Args[1]); !isK || sep == "" {
+				continue
+			}
+			if !(x == bb || x.Dominates(bb)) {
+				continue
+			}
+			ln, ok := a.lenOf(call)
+			if !ok {
+				continue
+			}
+			f.ge = append(f.ge, ln.add(linConst(1), -1))
+			if !gotDom {
+				domFacts, gotDom = dominatingFacts(bb), true
+			}
+			textNonEmpty, firstEmpty := false, false
+			for _, df := range domFacts {
+				if nonEmptyFact(df, call.Call.Args[0]) {
+					textNonEmpty = true
+				}
+				if bo, isBo := df.V.(*ssa.BinOp); isBo && (bo.Op == token.EQL || bo.Op == token.NEQ) {
+					el, k := bo.X, bo.Y
+					if _, isC := el.(*ssa.Const); isC {
+						el, k = k, el
+					}
+					if sv, isS := strConst(k); !isS || sv != "" {
+						continue
+					}
+					ld, isLd := el.(*ssa.UnOp)
+					if !isLd || ld.Op != token.MUL {
+						continue
+					}
+					ia, isIA := ld.X.(*ssa.IndexAddr)
+					if !isIA || ia.X != ssa.Value(call) {
+						continue
+					}
+					if z, isZ := intConst(ia.Index); isZ && z == 0 && (bo.Op == token.EQL) == df.True {
+						firstEmpty = true
+					}
+				}
+			}
+			if textNonEmpty && firstEmpty {
+				f.ge = append(f.ge, ln.add(linConst(2), -1))
+			}
+		}
+	}
 	// strengthen with disequalities: x != y and y - x >= 0  =>  y - x - 1 >= 0
 	for round := 0; round < 2; round++ {
 		for _, nq := range f.neq {
